@@ -293,7 +293,8 @@ const JanetKV *janet_table_to_struct(JanetTable *t) {
 
 JanetTable *janet_table_proto_flatten(JanetTable *t) {
     JanetTable *newTable = janet_table(0);
-    while (t) {
+    /* Bounded like lookups are, so that a cyclic prototype chain cannot loop for ever */
+    for (int i = JANET_MAX_PROTO_DEPTH; t && i; --i) {
         JanetKV *kv = t->data;
         JanetKV *end = t->data + t->capacity;
         while (kv < end) {
